@@ -7,16 +7,18 @@ From PipeIn Require Import Model.
 Definition obs (os : option state) :=
   s ← os; Some (processed s.(log), s.(ready), s.(future), s.(pollfn), s.(released), s.(strong), s.(freed), s.(reg),
                 all_done s, bool_decide (s.(future) = []) && s.(ended), s.(ext)).
+(* ordinary (not slow) items *)
+Definition P (l : list nat) : list item := (fun n => (n, false)) <$> l.
 Definition R n := replicate n ARun.
 Definition W i n := replicate n (AWake i).
 
 (* (a) three items ready before the initial poll job runs; a concurrent sync (opaque operation) behind it;
        then the input ends: everything processed in order, poll_fn released *)
 Definition tr_a := [AEnvAvail; AEnvAvail; AEnvAvail] ++ W 0 3 ++ [AEnvOp] ++ R 13 ++ [AEnvEnd] ++ W 1 4 ++ R 6.
-Example run_a : obs (run (init [10;11;12]) tr_a) = Some ([10;11;12], [], [], false, true, 1, false, None, true, true, true).
+Example run_a : obs (run (init (P [10;11;12])) tr_a) = Some ((P [10;11;12]), [], [], false, true, 1, false, None, true, true, true).
 Proof. vm_compute. reflexivity. Qed.
-Example log_a : (s ← run (init [10;11;12]) tr_a; Some s.(log)) =
-  Some [EStart (OPoll 0); EProcess 10; EProcess 11; EProcess 12; EFinish (OPoll 0);
+Example log_a : (s ← run (init (P [10;11;12])) tr_a; Some s.(log)) =
+  Some [EStart (OPoll 0); EProcess (10, false); EProcess (11, false); EProcess (12, false); EFinish (OPoll 0);
         EStart (OOther 0); EFinish (OOther 0); EStart (OPoll 1); EFinish (OPoll 1)].
 Proof. vm_compute. reflexivity. Qed.
 
@@ -24,50 +26,80 @@ Proof. vm_compute. reflexivity. Qed.
        one arriving AFTER the job returned Pending (takes PipeWaker 0, wake, poll job 1) *)
 Definition tr_b := [AEnvAvail] ++ W 0 3 ++ R 4 ++ [AEnvAvail] ++ R 5 ++ [AEnvAvail] ++ W 1 4 ++ R 7
                    ++ [AEnvEnd] ++ W 2 4 ++ R 6.
-Example run_b : obs (run (init [10;11;12]) tr_b) = Some ([10;11;12], [], [], false, true, 1, false, None, true, true, true).
+Example run_b : obs (run (init (P [10;11;12])) tr_b) = Some ((P [10;11;12]), [], [], false, true, 1, false, None, true, true, true).
 Proof. vm_compute. reflexivity. Qed.
 
 (* (c) a burst of three items after the job went to sleep: the first event takes the waker, the other two find none;
        ONE wake, ONE poll job processes all three *)
 Definition tr_c := W 0 3 ++ R 5 ++ [AEnvAvail; AEnvAvail; AEnvAvail] ++ W 1 4 ++ R 11 ++ [AEnvEnd] ++ W 2 4 ++ R 6.
-Example run_c : obs (run (init [10;11;12]) tr_c) = Some ([10;11;12], [], [], false, true, 1, false, None, true, true, true).
+Example run_c : obs (run (init (P [10;11;12])) tr_c) = Some ((P [10;11;12]), [], [], false, true, 1, false, None, true, true, true).
 Proof. vm_compute. reflexivity. Qed.
 
 (* (d) a duplicate wake of PipeWaker 0 while poll job 0 is still running: job 1 is queued behind it, job 0 then
        registers its (already taken) waker and goes Pending; job 1 re-registers a live one; a sync in between *)
 Definition tr_d := [AEnvAvail] ++ W 0 3 ++ R 3 ++ [AEnvSpur 0] ++ W 1 4 ++ [AEnvOp; AEnvAvail] ++ R 6
                    ++ R 5 ++ R 2 ++ [AEnvEnd] ++ W 2 4 ++ R 6.
-Example run_d : obs (run (init [10;11]) tr_d) = Some ([10;11], [], [], false, true, 1, false, None, true, true, true).
+Example run_d : obs (run (init (P [10;11])) tr_d) = Some ((P [10;11]), [], [], false, true, 1, false, None, true, true, true).
 Proof. vm_compute. reflexivity. Qed.
 (* the state in which job 0 has gone Pending with a dead waker: job 1 is queued (theorem 3, second disjunct) *)
-Example mid_d : (s ← run (init [10;11]) (take 20 tr_d); Some (s.(reg), is_live s.(wctx) 0, s.(opq), s.(running))) =
+Example mid_d : (s ← run (init (P [10;11])) (take 20 tr_d); Some (s.(reg), is_live s.(wctx) 0, s.(opq), s.(running))) =
   Some (Some 0, false, [OPoll 1; OOther 0], None).
 Proof. vm_compute. reflexivity. Qed.
 
 (* (e) the object is dropped mid-stream (after the first item); the next item event finds it gone: poll_fn is taken,
        handed to the chute and released; the second item is NOT processed *)
 Definition tr_e := [AEnvAvail] ++ W 0 3 ++ R 7 ++ [AEnvDrop] ++ R 2 ++ [AEnvAvail] ++ W 1 3 ++ [AChute].
-Example run_e : obs (run (init [10;11]) tr_e) = Some ([10], [11], [], false, true, 0, true, None, true, false, false).
+Example run_e : obs (run (init (P [10;11])) tr_e) = Some ((P [10]), (P [11]), [], false, true, 0, true, None, true, false, false).
 Proof. vm_compute. reflexivity. Qed.
 (* ... and without a stream event after the drop the pipe keeps poll_fn (that is what the property says) *)
-Example run_e_silent : obs (run (init [10;11]) (take 14 tr_e)) = Some ([10], [], [11], true, false, 0, true, Some 0, true, false, false).
+Example run_e_silent : obs (run (init (P [10;11])) (take 14 tr_e)) = Some ((P [10]), [], (P [11]), true, false, 0, true, Some 0, true, false, false).
 Proof. vm_compute. reflexivity. Qed.
 
 (* (f) the last external owner drops the object while the initial PipeContext::poll holds the upgraded Arc: the poll
        job is still queued, the temporary Arc is the last reference, Desync::drop runs behind the poll job *)
 Definition tr_f := [AEnvAvail] ++ W 0 1 ++ [AEnvDrop] ++ W 0 2 ++ R 9.
-Example run_f : (s ← run (init [10;11]) tr_f; Some (s.(log), s.(strong), s.(freed))) =
-  Some ([EStart (OPoll 0); EProcess 10; EFinish (OPoll 0); EStart OFree; EFinish OFree], 0, true).
+Example run_f : (s ← run (init (P [10;11])) tr_f; Some (s.(log), s.(strong), s.(freed))) =
+  Some ([EStart (OPoll 0); EProcess (10, false); EFinish (OPoll 0); EStart OFree; EFinish OFree], 0, true).
 Proof. vm_compute. reflexivity. Qed.
 
 (* (g) the race the property mentions: the item's wake-up fires while the previous poll job is still finishing
        (it has registered its waker and returned Pending but the operation has not finished yet): the new poll job is
        queued behind the finishing one and processes the item *)
 Definition tr_g := W 0 3 ++ R 4 ++ [AEnvAvail] ++ W 1 4 ++ R 1 ++ R 7 ++ [AEnvEnd] ++ W 2 4 ++ R 6.
-Example mid_g : (s ← run (init [10]) (take 12 tr_g); Some (s.(running), s.(opq), s.(ready), s.(reg))) =
-  Some (Some (OPoll 0, JEnd), [OPoll 1], [10], None).
+Example mid_g : (s ← run (init (P [10])) (take 12 tr_g); Some (s.(running), s.(opq), s.(ready), s.(reg))) =
+  Some (Some (OPoll 0, JEnd), [OPoll 1], (P [10]), None).
 Proof. vm_compute. reflexivity. Qed.
-Example run_g : obs (run (init [10]) tr_g) = Some ([10], [], [], false, true, 1, false, None, true, true, true).
+Example run_g : obs (run (init (P [10])) tr_g) = Some ((P [10]), [], [], false, true, 1, false, None, true, true, true).
+Proof. vm_compute. reflexivity. Qed.
+
+(* (h) a SLOW item (11): its processing begins, the poll job is suspended with the item in hand and stays the object's
+       open operation while another operation is queued, a further item arrives and a duplicate wake queues poll job 1;
+       the re-poll finishes item 11 (Begin immediately followed by Process in the log) and the loop goes on *)
+Definition items_h : list item := [(10,false); (11,true); (12,false)].
+Definition tr_h := [AEnvAvail; AEnvAvail] ++ W 0 3 ++ R 7 ++ [AEnvOp; AEnvAvail; AEnvSpur 0] ++ W 1 4
+                   ++ R 4 ++ R 1 ++ R 5 ++ R 2 ++ [AEnvEnd] ++ W 2 4 ++ R 6.
+Example mid_h : (s ← run (init items_h) (take 19 tr_h); Some (s.(running), s.(opq), s.(ready))) =
+  Some (Some (OPoll 0, JSusp (11,true)), [OOther 0; OPoll 1], [(12,false)]).
+Proof. vm_compute. reflexivity. Qed.
+Example run_h : obs (run (init items_h) tr_h) = Some (items_h, [], [], false, true, 1, false, None, true, true, true).
+Proof. vm_compute. reflexivity. Qed.
+Example log_h : (s ← run (init items_h) tr_h; Some s.(log)) =
+  Some [EStart (OPoll 0); EProcess (10,false); EBegin (11,true); EProcess (11,true); EProcess (12,false); EFinish (OPoll 0);
+        EStart (OOther 0); EFinish (OOther 0); EStart (OPoll 1); EFinish (OPoll 1); EStart (OPoll 2); EFinish (OPoll 2)].
+Proof. vm_compute. reflexivity. Qed.
+
+(* (i) the last owner drops the object WHILE an item is suspended: Desync::drop (OFree) waits behind the suspended poll
+       job, the item is finished, the job goes Pending, OFree runs; the next item event finds the object gone: poll_fn is
+       taken and released, the second item is not processed *)
+Definition items_i : list item := [(10,true); (11,false)].
+Definition tr_i := [AEnvAvail] ++ W 0 3 ++ R 5 ++ [AEnvDrop] ++ R 3 ++ R 2 ++ [AEnvAvail] ++ W 1 3 ++ [AChute].
+Example mid_i : (s ← run (init items_i) (take 10 tr_i); Some (s.(running), s.(opq), s.(strong))) =
+  Some (Some (OPoll 0, JSusp (10,true)), [OFree], 0).
+Proof. vm_compute. reflexivity. Qed.
+Example run_i : obs (run (init items_i) tr_i) = Some ([(10,true)], [(11,false)], [], false, true, 0, true, None, true, false, false).
+Proof. vm_compute. reflexivity. Qed.
+Example log_i : (s ← run (init items_i) tr_i; Some s.(log)) =
+  Some [EStart (OPoll 0); EBegin (10,true); EProcess (10,true); EFinish (OPoll 0); EStart OFree; EFinish OFree].
 Proof. vm_compute. reflexivity. Qed.
 
 (* labels of the steps of run (a), as the implementation's lock log would show them (LNone steps are silent) *)
@@ -79,6 +111,6 @@ Fixpoint labels (s : state) (tr : list actor) : list label :=
                 | _, _ => []
                 end
   end.
-Example labels_a : labels (init [10;11;12]) tr_a =
+Example labels_a : labels (init (P [10;11;12])) tr_a =
   [LPollFn; LStream; LProcess; LStream; LProcess; LStream; LProcess; LStream; LPipeWaker; LPollFn; LStream; LPollFn].
 Proof. vm_compute. reflexivity. Qed.
